@@ -332,7 +332,7 @@ def future_slots(ctx: Ctx) -> dict[str, list[tuple[str, Func, Func | None]]]:
 def rule_ts_fut(ctx: Ctx) -> None:
     p = ctx.prog
     p.family = None
-    ctx.rule('TS-FUT', 'every future slot: private field touched only by __init__ and its own property; the getter waits on a Future, stores the result back and returns it', floor=10)
+    ctx.rule('TS-FUT', 'every future slot: private field touched only by __init__ and its own property; the getter waits on a Future, stores the result back and returns it', floor=18)
     ctx.rule('TS-FUT-USED', 'the result of every tdc.allreduce / broadcast / allreduce_bucketed call in the layers is stored into a future slot', floor=10)
     slots = future_slots(ctx)
     n_slots = 0
